@@ -37,7 +37,7 @@ LL_MODELS = ["Gaussian", "Exponential", "Matern", "Integral", "Stable", "Rationa
 
 def generate(tier, seed):
     rng = np.random.default_rng([seed, 13])
-    n = {"quick": 40, "thorough": 400}[tier]
+    n = {"quick": 40, "thorough": 2000}[tier]
     cases = []
     for rep in range(n):
         for chk in ("embedding", "cov_used", "haversine", "temporal", "rotation", "srf_twin", "fit", "bins") + (("units",) if rep % 4 == 0 else ()):
